@@ -6,13 +6,14 @@ META = {
     'level_note': 'L3 (Parseval over one full period) assumed; numpy.fft.fft2 abstract (its unitarity under norm=\'ortho\' is numpy\'s contract); window monotonicity follows from non-negativity plus window-independence of evaluated samples (C02) and is additionally checked natively. A2 reals ("to rounding" is not decided).',
 }
 FUNCTIONS = ['lentil.fourier.dft2', 'lentil.propagate._dft_alpha', 'lentil.propagate.propagate_dft',
+             'lentil.propagate.propagate_dft#mask',
              'lentil.wavefront.Wavefront.intensity#1', 'lentil.wavefront.Wavefront.intensity#2',
              'lentil.wavefront.Wavefront.insert#1', 'lentil.field.insert#array',
              'lentil.propagate.propagate_fft#no-scratch', 'lentil.propagate.propagate_fft#scratch'] + list(_e.NORMALIZE)
 LEMMAS = list(_e.LEMMAS)
 
 
-SHARDS = {'lentil.field.insert#array': 3}
+SHARDS = {'lentil.field.insert#array': 3, 'lentil.propagate.propagate_dft#mask': 3}
 
 
 def bounded(tier, seed):
